@@ -14,7 +14,7 @@ import imodel
 import isa
 import symex
 import terms as T
-from common import Ctx
+from common import Ctx, is_inner_vm
 from facts import walk, callee_path
 
 RAW = re.compile(r"(read_unaligned|write_unaligned|read_volatile|write_volatile|ptr::read|ptr::write|fetch_add|copy_nonoverlapping)$")
@@ -191,7 +191,7 @@ def run(rep, tier):
                 ok = len(ins) == 1 and "allowed_memory" in repr(ins[0][2][0]) and ins[0][2][1] == arg and not dele
                 found = "insert(%s)" % ("argument" if ins[0][2][1] == arg else repr(ins[0][2][1])[:80])
             else:
-                ok = len(dele) == 1 and "'parent'" in repr(dele[0][2][0]) and dele[0][2][1] == arg
+                ok = len(dele) == 1 and is_inner_vm(dele[0][2][0]) and dele[0][2][1] == arg
                 found = "delegates with %s" % ("the argument" if dele and dele[0][2][1] == arg else "something else")
         rep.ob(rg, path, ok, "%s" % path, expected="allowed_memory.insert(range) with the caller's range, or delegation with it", found=found)
 
